@@ -161,7 +161,7 @@ Proof.
   destruct (Z.eqb_spec chunk 0) as [E|E]; [reflexivity|]. cbn [gbind].
   pose proof (quot_small size chunk E).
   rewrite (wrap_small (Z.quot size chunk)) by lia.
-  destruct (Z.rem size chunk =? 0).
+  destruct (Z.rem size chunk =? 0); cbn [gbind].
   - rewrite wrap_small by lia. destruct (0 <? Z.quot size chunk - 1); reflexivity.
   - destruct (0 <? Z.quot size chunk); reflexivity.
 Qed.
